@@ -8,6 +8,8 @@ use crate::runner::{Ctx, PropDyn};
 pub mod c01;
 pub mod c03;
 pub mod c05;
+pub mod c07;
+pub mod c08;
 pub mod c09;
 pub mod c10;
 pub mod c11;
@@ -44,6 +46,18 @@ pub fn all() -> Vec<Check> {
             props: c05::props,
             describe: c05::describe,
             sweeps: Some(c05::sweeps),
+        },
+        Check {
+            id: "C07",
+            props: c07::props,
+            describe: c07::describe,
+            sweeps: Some(c07::sweeps),
+        },
+        Check {
+            id: "C08",
+            props: c08::props,
+            describe: c08::describe,
+            sweeps: None,
         },
         Check {
             id: "C09",
